@@ -26,6 +26,7 @@ impl Walrus {
     /// Clears the process-global block/file trackers (see `verif_reset_trackers`).
     pub fn __verif_reset_globals() {
         super::allocator::verif_reset_trackers();
+        crate::wal::config::verif_reset_last_millis();
     }
 
     /// JSON text. `topics` lists the topics whose cursor-index entry, count and marker
